@@ -38,9 +38,9 @@ func (b backend) apply(name string, t structs.MessageType, req any) error {
 func (b backend) Subscribe(*stream.SubscribeRequest) (*stream.Subscription, error) {
 	return nil, errors.New("verif: no subscriptions")
 }
-func (b backend) IsLeader() bool                                   { return true }
-func (b backend) SetLeaderAddress(string)                          {}
-func (b backend) GetLeaderAddress() string                         { return "" }
+func (b backend) IsLeader() bool                                     { return true }
+func (b backend) SetLeaderAddress(string)                            {}
+func (b backend) GetLeaderAddress() string                           { return "" }
 func (b backend) ValidateProposedPeeringSecret(string) (bool, error) { return true, nil }
 func (b backend) PeeringSecretsWrite(*pbpeering.SecretsWriteRequest) error {
 	return errors.New("verif: unexpected")
@@ -51,7 +51,9 @@ func (b backend) PeeringTerminateByID(*pbpeering.PeeringTerminateByIDRequest) er
 func (b backend) PeeringTrustBundleWrite(*pbpeering.PeeringTrustBundleWriteRequest) error {
 	return errors.New("verif: unexpected")
 }
-func (b backend) PeeringWrite(*pbpeering.PeeringWriteRequest) error { return errors.New("verif: unexpected") }
+func (b backend) PeeringWrite(*pbpeering.PeeringWriteRequest) error {
+	return errors.New("verif: unexpected")
+}
 func (b backend) CatalogRegister(req *structs.RegisterRequest) error {
 	return b.apply("peerstream:register", structs.RegisterRequestType, req)
 }
@@ -154,8 +156,8 @@ var (
 )
 
 type obs struct {
-	views    map[string][]string // peer/service -> canonical view with node data
-	instOnly map[string][]string // peer/service -> view without node data
+	views    map[string][]string   // peer/service -> canonical view with node data
+	instOnly map[string][]string   // peer/service -> view without node data
 	other    map[string]world.Dump // peer -> dump of everything that is not that peer's catalog rows
 }
 
@@ -472,6 +474,7 @@ func Run(c *ev.Ctx) {
 	}
 	st := e1.Run(cfg)
 	st.Report(c, "")
+	runExporter(c)
 	c.Set("alphabet_size", len(alpha))
 	c.Set("import_ops", nImport)
 	var an []string
